@@ -1,4 +1,5 @@
 import HyperModel.Proofs.SnowSync
+import HyperModel.Proofs.SnowLoop
 /-! # C21 Dynamic state sync hands over to normal operation consistently
 
 Model: `HyperModel/Model/Snow.lean` (`start`, `finish`, `finishTail`, `reprocess`, `reverifyOne`,
@@ -244,6 +245,25 @@ theorem health_error_iff (s : State) :
     (healthErr s).1 = true ↔ (s.ready = false ∨ ∃ u, s.unresolved = some u ∧ u.length > 0) := by
   unfold healthErr
   cases hr : s.ready <;> cases hu : s.unresolved <;> simp
+
+/-- **processing_reverified (whole loop)** — the hand-over step (`finishTail`, i.e. the complete
+height-sorted `verifyProcessingBlocks` loop): every still-processing block ends verified **iff** it is
+valid and its parent — as `GetBlock` resolves it after the loop: the populated last accepted block,
+or another processing block (to which the same equivalence applies, so by induction: iff the block
+and all its processing ancestors are valid) — is verified.  Together with
+`failed_set_is_unverified_processing` the registered unresolved set is exactly the complement.
+Hypotheses on the pre-state (not derived from the call history, hence still listed as partial):
+the processing objects are distinct, were only vacuously verified, and a processing parent is lower
+than its child (`pre.verify` enforces height = parent height + 1). -/
+theorem processing_reverified_loop (s : State) (hnd : s.processingSorted.Nodup)
+    (hu : ∀ h ∈ s.processingSorted, (s.obj h).verified = false)
+    (hph : ∀ h ∈ s.processingSorted, ∀ j ∈ s.processingSorted,
+      s.getBlock (s.obj h).blk.parent = .obj j → (s.obj j).blk.height < (s.obj h).blk.height)
+    (hok : (finishTail s).2 = .ok) :
+    ∀ h ∈ s.processingSorted, (((finishTail s).1.obj h).verified = true ↔
+      ((s.obj h).blk.invalid = false ∧
+        ∃ p, (finishTail s).1.view ((finishTail s).1.getBlock (s.obj h).blk.parent) = some p ∧ p.verified = true)) :=
+  finishTail_reverified s hnd hu hph hok
 
 /-! ### Known finding: finish between the rejects of one transitive rejection
 
